@@ -354,7 +354,7 @@ def run(ctx):
     exe = kexec.build(ctx)
     w = World(os.path.join(ctx.work, 'pki'))
     q = ctx.tier == 'quick'
-    ns, nt, nf, nl = (120, 40, 1, 30) if q else (3000, 1200, 12, 800)
+    ns, nt, nf, nl = (120, 40, 1, 80) if q else (3000, 1200, 12, 800)
     ctx.rule = ('record sequences (header / certificate / publication / signature / unknown records of either criticality; valid orders, insertions, swaps, deletions, random sequences, '
                 'bad magic, truncation, trailing byte) signed at run time with a test CA (openssl) against a reference structure acceptor and signed-length computation; trust matrix '
                 '{signed range exact / one byte short / including the signature header / without magic / other data} x anchors {right CA, other CA, none, both} x constraint sets '
